@@ -62,6 +62,9 @@ where
     // Shutdown signal
     shutdown_signal: watch::Receiver<()>,
 
+    // Last (term, vote) written to stable storage; None until the first write
+    persisted_hard_state: Option<(u64, Option<VotedFor>)>,
+
     // For unit test
     #[cfg(test)]
     test_role_transition_listener: Vec<mpsc::UnboundedSender<i32>>,
@@ -152,6 +155,8 @@ where
 
             leader_change_listener: None,
 
+            persisted_hard_state: None,
+
             #[cfg(test)]
             test_role_transition_listener: Vec::new(),
 
@@ -197,6 +202,21 @@ where
                     false
                 }
             });
+        }
+    }
+
+    /// Persist current term and vote whenever they changed (Raft: "updated on stable storage
+    /// before responding to RPCs"). Called after every tick / event handler, so a crash can
+    /// no longer roll the term back or forget a granted vote.
+    fn persist_hard_state_if_changed(&mut self) {
+        let hard_state = self.role.state().shared_state().hard_state;
+        let current = (hard_state.current_term, hard_state.voted_for);
+        if self.persisted_hard_state == Some(current) {
+            return;
+        }
+        match self.ctx.raft_log().save_hard_state(&hard_state) {
+            Ok(()) => self.persisted_hard_state = Some(current),
+            Err(e) => error!(?e, "Failed to persist hard state"),
         }
     }
 
@@ -289,6 +309,7 @@ where
                     } else {
                         trace!("tick success");
                     }
+                    self.persist_hard_state_if_changed();
                 }
 
                 // P2: internal events — handle first, drain rest after select
@@ -373,7 +394,9 @@ where
 
     async fn process_internal_events(&mut self) -> Result<()> {
         while let Some(event) = self.buffered_internal_event.pop_front() {
-            if let Err(e) = self.handle_internal_event(event).await {
+            let result = self.handle_internal_event(event).await;
+            self.persist_hard_state_if_changed();
+            if let Err(e) = result {
                 if e.is_fatal() {
                     error!(%self.node_id, ?e, "Fatal error in process_internal_events, shutting down");
                     return Err(e);
@@ -401,11 +424,12 @@ where
             #[cfg(test)]
             let test_event = inbound_event_to_test_event(&event);
 
-            if let Err(e) = self
+            let result = self
                 .role
                 .handle_inbound_event(event, &self.ctx, self.internal_event_tx.clone())
-                .await
-            {
+                .await;
+            self.persist_hard_state_if_changed();
+            if let Err(e) = result {
                 if e.is_fatal() {
                     error!(%self.node_id, ?e, "Fatal error in drain_inbound_events, shutting down");
                     return Err(e);
